@@ -176,3 +176,69 @@ Proof.
 Qed.
 
 End Run.
+
+(* ------------------------------------------------------------------ with only the lower hypothesis on the oracle *)
+Definition qmax (a b : Q) : Q := if Qle_bool a b then b else a.
+Definition maxans (l : list req) : Q := fold_right (fun r a => qmax (rq_ans r) a) 0 l.
+
+Lemma qmax_l a b : a <= qmax a b.
+Proof. unfold qmax. destruct (Qle_bool a b) eqn:E; [apply Qle_bool_iff in E; exact E|lra]. Qed.
+Lemma qmax_r a b : b <= qmax a b.
+Proof. unfold qmax. destruct (Qle_bool a b) eqn:E; [lra|apply Qle_bool_false in E; lra]. Qed.
+
+Lemma maxans_ge l r : In r l -> rq_ans r <= maxans l.
+Proof.
+  induction l as [|x l IH]; [intros []|]. cbn [maxans fold_right]. intros [<-|H].
+  - apply qmax_l.
+  - eapply Qle_trans; [apply IH, H|apply qmax_r].
+Qed.
+
+Lemma good_lo_good l : good_lo l -> good (fun _ => maxans l) l.
+Proof. intros H r Hr. split; [apply H, Hr|]. intros _. apply maxans_ge, Hr. Qed.
+
+(* C20_one_pending *)
+Theorem one_pending cfg oracle orders (s : kst) :
+  0 <= pc_period cfg -> reach cfg oracle orders s -> good_lo (pw_reqs (world s)) ->
+  (forall n, In n (pc_nodes cfg) ->
+     exists k T, ev_of (world s) n = Some (k, T) /\ (k < length (ids s))%nat
+                 /\ filter (live_of n) (queue s) = [fentry T (nth k (ids s) 0%nat) n])
+  /\ (forall x, In x (queue s) -> e_live x = true ->
+        exists n k T, ev_of (world s) n = Some (k, T) /\ x = fentry T (nth k (ids s) 0%nat) n)
+  /\ NoDup (map e_id (queue s)).
+Proof.
+  intros Hp R Hg.
+  assert (P : PInv cfg (fun _ => maxans (pw_reqs (world s))) s).
+  { apply (reach_Inv cfg (fun _ => maxans (pw_reqs (world s))) (fun x y _ => Qle_refl _) Hp oracle orders s R). apply good_lo_good, Hg. }
+  pose proof (pi_link _ _ _ P) as L. split; [|split].
+  - intros n Hn. pose proof (pi_dom _ _ _ P n Hn) as Hd.
+    destruct (ev_look (pw_ev (world s)) n) as [[k T]|] eqn:E; [|contradiction].
+    exists k, T. split; [exact E|]. split.
+    + rewrite (lk_len _ _ _ _ L). exact (proj1 (lk_fwd _ _ _ _ L n k T E (fun x => x))).
+    + eapply link_one_live; eassumption.
+  - intros x Hx Hl. destruct (lk_bwd _ _ _ _ L x Hx Hl) as [n [k [T [A [_ C]]]]]. exists n, k, T. split; assumption.
+  - exact (lk_nodup _ _ _ _ L).
+Qed.
+
+(* a boolean form of the hypothesis on the oracle, for concrete runs *)
+Definition good_b (eps : Q) (l : list req) : bool :=
+  forallb (fun r => match rq_kind r with
+                    | RT => Qle_bool (rq_t r) (rq_ans r) && Qle_bool (rq_ans r) (rq_arg r + eps)
+                    | _ => true end) l.
+Lemma good_b_good eps l : good_b eps l = true -> good (fun x => x + eps) l.
+Proof.
+  unfold good_b. rewrite forallb_forall. intros H r Hr. specialize (H r Hr).
+  split; intros E; rewrite E in H; apply andb_true_iff in H; destruct H as [H1 H2]; apply Qle_bool_iff; assumption.
+Qed.
+
+(* results(): the reported final phases lie in [0, 1] *)
+Lemma final_phases_range cfg t w : Forall (fun x => 0 <= x /\ x <= 1) (fst (final_phases cfg t w)).
+Proof.
+  unfold final_phases.
+  assert (G : forall nodes acc, Forall (fun x => 0 <= x /\ x <= 1) (fst acc) ->
+    Forall (fun x => 0 <= x /\ x <= 1)
+      (fst (fold_left (fun (acc : list Q * pworld) n => let '(phi, w1) := get_phase cfg t n (snd acc) in (fst acc ++ [phi], w1)) nodes acc))).
+  { induction nodes as [|n nodes IH]; intros acc Ha; cbn [fold_left]; [exact Ha|].
+    apply IH. destruct (get_phase cfg t n (snd acc)) as [phi w1] eqn:E. cbn [fst].
+    apply get_phase_spec in E. apply Forall_app. split; [exact Ha|]. constructor; [tauto|constructor]. }
+  apply G. constructor.
+Qed.
